@@ -62,6 +62,9 @@ THEOREMS = [
     "PV.C04.nestGo_iff_dyck_erased",
     "PV.C04.softkw_error_transparent_fails",
     "PV.C04.softkw_error_cuts_line_partial",
+    "PV.C04.indentGo_tab_after_space",
+    "PV.C04.indentGo_dedent_unknown",
+    "PV.C04.lexStringBody_closed_iff",
 ]
 TRUSTED = [
     "Lean 4.33.0 kernel; axioms limited to propext, Classical.choice, Quot.sound",
@@ -80,16 +83,19 @@ PARTIAL = [
     "number lexer: proved 'whatever is taken as one numeric token is a Python numeric literal' (lexRest_sound, hence "
     "malformed_number_rejected); the converse (every Python literal is taken whole) is not proved, only sampled "
     "exhaustively to length 5 and validated against CPython; one shape below Python is witnessed (1.else, C01's finding)",
-    "string / f-string scanners (lex_string, parse_fstring, parse_formatted_value, parse_spec): modelled and tied by "
-    "exhaustive correspondence (all bodies of <=6 symbols); theorems only for bytes/text mixing, non-ASCII bytes and the "
-    "finding witness fstr_leading_equals_fails / _partial; f-string malformedness has no Lean Spec, the oracle uses CPython",
+    "string / f-string scanners: lex_string is characterised for single-quoted literals (lexStringBody_closed_iff), "
+    "triple-quoted ones only by correspondence; parse_fstring / parse_formatted_value / parse_spec are modelled and tied "
+    "by exhaustive correspondence (all bodies of <=6 symbols) with theorems only for the finding witness "
+    "fstr_leading_equals_fails / _partial; f-string malformedness has no Lean Spec, the oracle uses CPython",
     "whole-parameter-list glue: checkSig_none_iff / checkSig_kind / bareStar_iff relate the three checks to the "
     "reference predicates on what the grammar assembles (ast::Arguments); that the assembly keeps source order within "
     "each group is sampled by correspondence, not proved",
     "which reduction of the LR automaton runs first, and the grammar's treatment of the tiny token languages of the "
     "streams (numParse, rawGo trailers, strParse, indentGo block rule), are part of the tie, not of the theorems",
-    "indentation: compare_strict, eat_indentation and the dedent search are characterised for all inputs; the "
-    "line-by-line driver indentGo (and that it maintains the Chain invariant) is covered by correspondence only",
+    "indentation: compare_strict, eat_indentation and the dedent search are characterised for all inputs and lifted to "
+    "whole lines for the two catalogue rules (indentGo_tab_after_space, indentGo_dedent_unknown, the latter assuming "
+    "the Chain invariant of the stack); that indentGo maintains that invariant, and its expected/unexpected-indent "
+    "rule, are covered by correspondence only",
 ]
 READY = True
 TECHNIQUE = ("Lean 4 theorems (validate_iff per rule, bracket matcher = Dyck language, compare_strict = agreement for "
@@ -102,8 +108,9 @@ LEVEL_TEXT = ("Machine-checked Lean 4 theorems, for inputs of every size, about 
               "compare_strict answers o iff o is the order for every positive tab and space width (so every CPython "
               "TabError is reported, witnessed stricter); the dedent search fails iff the level is not on the stack; the "
               "number lexer never takes a non-literal as one numeric token. The models are tied to the Rust code on every "
-              "run by exhaustive small-scope correspondence (parameter lists <=4, argument lists <=4, bracket words <=5/6, "
-              "indentation scripts, numerals <=4/5, strings <=6/7, f-string bodies <=5/6) at every syntactic site, and the "
+              "run by exhaustive small-scope correspondence (quick/thorough: parameter lists <=4/5, argument lists <=4/5, "
+              "bracket words <=5/7, indentation scripts <=3-4 lines, numerals <=4/6, strings <=6/8, f-string bodies "
+              "<=5/7) at every syntactic site, and the "
               "real parser is judged by an independent Python oracle validated against CPython; 23 kinds of single "
               "rule-violating edits are applied at every site of template programs.")
 LEVEL_NOTE = ("Trusted: Lean kernel (axioms propext/Classical.choice/Quot.sound only); fidelity of the hand-written kernels as "
@@ -947,7 +954,7 @@ def _violating(req):
 def random_streams(ctx):
     """longer constructs than the exhaustive scopes reach: mostly valid shapes with one random flaw"""
     q = ctx.quick
-    n = 1500 if q else 30000
+    n = 1500 if q else 100000
     out = []
     rng = ctx.rng("random-sig")
     reqs = []
@@ -1106,7 +1113,7 @@ def streams(ctx):
     out.append(Stream(f"call-exhaustive-<={4 if q else 5}-args", [f"call {e} {ctx_args(c)}" for e in calls for c in CALL_CTX],
                       kind="exhaustive", exhaustive=True, nontrivial=_violating,
                       note="every argument list (<=4 items quick, <=5 thorough) over {x, *x, a=0, b=0, **x}, as call and as class bases"))
-    L = 5 if q else 6
+    L = 5 if q else 7
     out.append(Stream(f"brackets-sep-exhaustive-len<={L}",
                       [f"brackets sep {hexs(w)}" for w in words("()[]{}", L)], kind="exhaustive", exhaustive=True,
                       nontrivial=_violating, note="all bracket words; adjacent closer/opener separated by a comma"))
@@ -1120,7 +1127,7 @@ def streams(ctx):
     out.append(Stream("indent-exhaustive", reqs, kind="exhaustive", exhaustive=True, nontrivial=_violating,
                       note="indentation scripts: <=3 lines over all whitespace strings of <=2 tabs/spaces x "
                            "{block opener, statement, blank, comment}; 4 lines of openers/statements; longer widths"))
-    Ln = 4 if q else 5
+    Ln = 4 if q else 6
     out.append(Stream(f"num-exhaustive-len<={Ln}", [f"num {hexs(w)}" for w in words(NUM_ALPHA, Ln, 1)],
                       kind="exhaustive", exhaustive=True, nontrivial=_violating,
                       note="all texts over 0 1 9 _ . e + j x b o a"))
@@ -1131,16 +1138,16 @@ def streams(ctx):
         tails += [t1, t1 + "2"]
     out.append(Stream("line-continuation", [f"cont {hexs(t)}" for t in sorted(set(tails))], kind="exhaustive",
                       exhaustive=True, note="`x = 1 + \\` followed by every tail of <=2 layout characters (+ `2`)"))
-    Ls = 6 if q else 7
+    Ls = 6 if q else 8
     out.append(Stream(f"strlex-exhaustive-len<={Ls}", [f"strlex {hexs(w)}" for w in words(STR_ALPHA, Ls, 1)],
                       kind="exhaustive", exhaustive=True, nontrivial=_violating,
                       note="all texts over ' \" a backslash newline"))
-    Lf = 5 if q else 6
+    Lf = 5 if q else 7
     out.append(Stream(f"fstr-exhaustive-len<={Lf}", [f"fstr {hexs(w)}" for w in words(FSTR_ALPHA, Lf, 0)],
                       kind="exhaustive", exhaustive=True, nontrivial=_violating,
                       note="all f-string bodies over { } y ! r : = backslash"))
 
-    Lk = 5 if q else 6
+    Lk = 5 if q else 7
     out.append(Stream(f"softkw-lookahead-exhaustive-len<={Lk}", [f"softkw {hexs(w)}" for w in words("s:()l$", Lk)],
                       kind="exhaustive", exhaustive=True, nontrivial=lambda r: "24" in r.split()[1],
                       note="`match` + every line over { s, :, (, ), lambda, $ }: is the head delivered as keyword or "
